@@ -14,6 +14,7 @@ import (
 	"verif/engine/hook"
 	"verif/engine/peg"
 	"verif/engine/rtapi"
+	"verif/engine/vsync"
 )
 
 // Gen is a generation flag set.
@@ -203,9 +204,22 @@ func (b *Built) Run(input []byte, o *rtapi.RunOpts, script map[int]*rtapi.Block)
 	}
 	if o.TickCap == 0 {
 		o.TickCap = 400000
+		if o.MaxExpr > 0 && o.MaxExpr < 8000 {
+			// a parse that stays within the expression budget needs far
+			// fewer ticks than this; only runaway loops reach the cap
+			o.TickCap = int(o.MaxExpr) * 50
+		}
 	}
 	ctx := &rtapi.Ctx{Script: script}
-	return b.RT.Run(input, o, ctx)
+	vsync.Violations = nil
+	obs := b.RT.Run(input, o, ctx)
+	if len(vsync.Violations) > 0 {
+		obs.Pool = vsync.Violations
+		vsync.Violations = nil
+		// a corrupted pool must not leak into the next case
+		vsync.Reset()
+	}
+	return obs
 }
 
 // RefOptions derives reference options from runtime options and the variant.
@@ -232,7 +246,9 @@ type CmpOpts struct {
 	SkipLog            bool
 	SkipErrs           bool
 	SkipVal            bool
-	MaxExpr            uint64 // budget the implementation ran with
+	EventKey           func(e rtapi.Event) string // nil: all fields
+	SkipNoMatch        bool                       // ignore "no match found" errors on both sides (C12 covers them)
+	MaxExpr            uint64                     // budget the implementation ran with
 	IgnoreEncodingErrs bool
 }
 
@@ -286,6 +302,9 @@ func Compare(ref *peg.Result, obs *rtapi.Obs, pt *peg.PosTable, filename string,
 			if co.IgnoreEncodingErrs && e.Kind == "encoding" {
 				continue
 			}
+			if co.SkipNoMatch && e.Kind == "nomatch" {
+				continue
+			}
 			m := peg.ErrMessage(pt, filename, e)
 			if !seen[m] {
 				seen[m] = true
@@ -295,6 +314,9 @@ func Compare(ref *peg.Result, obs *rtapi.Obs, pt *peg.PosTable, filename string,
 		}
 		for _, e := range obs.Errs {
 			if co.IgnoreEncodingErrs && e.InnerKind == "encoding" {
+				continue
+			}
+			if co.SkipNoMatch && e.InnerKind == "other" && strings.HasPrefix(e.Inner, "no match found") {
 				continue
 			}
 			got = append(got, e.Msg)
@@ -309,15 +331,18 @@ func Compare(ref *peg.Result, obs *rtapi.Obs, pt *peg.PosTable, filename string,
 				}
 			}
 		}
-		if (len(want) == 0) != obs.ErrNil {
+		if !co.SkipNoMatch && (len(want) == 0) != obs.ErrNil {
 			diffs = append(diffs, fmt.Sprintf("err nil-ness: want %d errors, ErrNil=%v", len(want), obs.ErrNil))
 		}
 		if !obs.TypeOK {
 			diffs = append(diffs, "error is not an errList of *parserError")
 		}
 	}
+	for _, pv := range obs.Pool {
+		diffs = append(diffs, "state pool discipline: "+pv)
+	}
 	if !co.SkipLog {
-		if d := CompareLogs(ref.Log, obs.Log); d != "" {
+		if d := CompareLogs(ref.Log, obs.Log, co.EventKey); d != "" {
 			diffs = append(diffs, d)
 		}
 	}
@@ -325,13 +350,16 @@ func Compare(ref *peg.Result, obs *rtapi.Obs, pt *peg.PosTable, filename string,
 }
 
 // CompareLogs compares code block event logs.
-func CompareLogs(want, got []rtapi.Event) string {
+func CompareLogs(want, got []rtapi.Event, key func(rtapi.Event) string) string {
 	n := len(want)
 	if len(got) < n {
 		n = len(got)
 	}
+	if key == nil {
+		key = rtapi.Event.String
+	}
 	for i := 0; i < n; i++ {
-		if want[i].String() != got[i].String() {
+		if key(want[i]) != key(got[i]) {
 			return fmt.Sprintf("block event %d: want %s got %s", i, want[i], got[i])
 		}
 	}
